@@ -16,7 +16,7 @@ def NOT_REPRODUCED(msg=''):
 import tempfile, os
 from svgpathtools import svgstr2paths, Document
 from svgpathtools.svg_io_sax import SaxDocument
-svg = '<svg xmlns="http://www.w3.org/2000/svg"><g transform="translate(0.0,0.0)"><polyline points="0.0,0.0 0.0,-2.0 0.0,-1.0" transform="rotate(0.0)"/></g></svg>'; reader = 'SaxDocument'; exp = [[(0j, -2j), (-2j, -1j)]]
+svg = '<svg xmlns="http://www.w3.org/2000/svg"><g transform="translate(0.0,0.0)"><polyline points="0.0,0.0 0.0,-2.0 0.0,-1.0" transform="rotate(0.0)"/></g></svg>'; reader = 'Document.paths'; exp = [[(0j, -2j), (-2j, -1j)]]
 if reader == 'Document.paths': out = Document.from_svg_string(svg).paths()
 elif reader == 'paths_from_group':
     doc = Document.from_svg_string(svg); out = doc.paths_from_group(doc.root)
